@@ -442,6 +442,8 @@ class C06Life(Monitor):
                 else:
                     now = self._sig(d)
                     self.cov("stopped_deme_rechecks")
+                    if self.ctx.desc.get("shared") and any(c.is_active and len(c.current_population) == 1 and self.enters[c.id] for c in d.children):
+                        self.cov("stopped_parent_rechecked_while_its_one_individual_child_on_the_same_problem_object_ran")
                     if self.ctx.step - snap[4] >= 3:
                         self.cov("stopped_deme_observed_3_later_metaepochs")
                     if now[0] != snap[0] or now[1] != snap[1]:
